@@ -76,7 +76,7 @@ func refTag(tag byte) bool {
 
 func (e *Encoder) writeRef(index int) (int, error) {
 	e.writeBT(_refStartTag)
-	return e.writer.Write(encodeInt(int32(index)))
+	return e.write(encodeInt(int32(index)))
 }
 
 // return the order number of ref object if found ,
